@@ -21,8 +21,8 @@ FIXED = {
  "duplicate detection covers": ("C08","R08.a","src/gotranx/ode.py::gather_atoms::record::state_derivatives","conflicting derivatives of one state, and a parameter and a state with the same name and value, were accepted"),
  "reject conflicting definitions": ("C08","R08.a","src/gotranx/transformer.py::TreeToODE.ode::redefinition-raises","x = 1 ... x = 3 merged in a set before the duplicate check (the docs' own invalid example was accepted)"),
  "a name can be defined only once": ("C08","R08.a","src/gotranx/transformer.py::TreeToODE.ode::redefinition-raises","x = a # first / x = a # second kept two intermediates named x (monitor array one entry longer than monitor_index)"),
- "a trailing comment that is not a unit": ("C17","R17.a","src/gotranx/transformer.py::get_unit_and_comment_from_assignment::any-failure-is-a-comment","comment texts such as '# see eq. (3' or '# 1/0' aborted the load (TokenError, ZeroDivisionError)"),
- "an annotation that pint cannot turn into a unit": ("C17","R17.a","src/gotranx/atoms.py::unit_from_string::any-failure-is-no-unit","'# mV + mV' raised TypeError from ureg.Unit and aborted the load"),
+ "a trailing comment that is not a unit": ("C17","R17.a","src/gotranx/transformer.py::units.ureg(<the text>)::any-failure-absorbed","comment texts such as '# see eq. (3' or '# 1/0' aborted the load (TokenError, ZeroDivisionError)"),
+ "an annotation that pint cannot turn into a unit": ("C17","R17.a","src/gotranx/atoms.py::ureg.Unit(<the text>)::any-failure-absorbed","'# mV + mV' raised TypeError from ureg.Unit and aborted the load"),
  "an empty comment": ("C17","R17.b","src/gotranx/ode.lark::comment::terminal","an empty '#' comment swallowed the following line"),
  "comment lines and blank lines": ("C17","R17.b","src/gotranx/ode.lark::expressions::\"expressions\"::block-items","a comment line or white-space-only line inside expressions(\"A\") ended the block"),
  "C backend prints Mod": ("C02","R02.b","c-printer::Mod","Mod printed as fmod (sign of the dividend): Mod(-3.5, 2) gave -1.5 in C, 0.5 in NumPy"),
@@ -41,12 +41,12 @@ OPEN = [
  {"property":"C02","rule":"R02.a","construct":"c-printer::Integer::real-literal",
   "what":"the C printer prints an Integer operand of `/` and an Integer exponent as C int literals (inherited StrPrinter._print_Integer): `y = 1/4` is emitted as `const double y = 1/4;` (== 0), `2**(1/2)` as pow(2, 1/2) (== 1), `(3/2)*x` as (3/2)*x (== x)",
   "witness":"states(x=1)\\nparameters(a=2)\\ny = 1/4\\nz = 2**(1/2)\\ndx_dt = a*y + z", "why_not_fixed":"printing integers as reals must be contextual (array indices, init values pinned by tests/test_c_codegen.py::test_c_codegen_initial_parameter_values_no_clang_format); not a small patch"},
- {"property":"C17","rule":"R17.a","construct":"src/gotranx/transformer.py::get_unit_and_comment_from_assignment::units.ureg(potential_unit.text)",
+ {"property":"C17","rule":"R17.a","construct":"src/gotranx/transformer.py::units.ureg(<the text>)",
   "what":"the text of a trailing comment is parsed *and evaluated* by pint to find out whether it is a unit: `ds_dt = a # 9**9**9` hangs the loader (arbitrary-precision power tower)",
   "witness":"states(s=1)\\nparameters(a=1)\\nds_dt = a # 9**9**9", "why_not_fixed":"needs a unit recogniser that does not evaluate arithmetic; not a small patch"},
- {"property":"C17","rule":"R17.a","construct":"src/gotranx/atoms.py::unit_from_string::ureg.Unit(unit_str)",
+ {"property":"C17","rule":"R17.a","construct":"src/gotranx/atoms.py::ureg.Unit(<the text>)",
   "what":"unit strings (trailing unit annotations and ScalarParam(unit=...)) are evaluated by pint.Unit: the same power-tower text hangs", "witness":"ds_dt = a # 9**9**9 mV", "why_not_fixed":"same mechanism as above"},
- {"property":"C17","rule":"R17.a","construct":"src/gotranx/atoms.py::unit_from_string::ureg.Unit(unit_str.split(' ')[0])",
+ {"property":"C17","rule":"R17.a","construct":"src/gotranx/atoms.py::ureg.Unit(<first word of the text>)",
   "what":"fallback attempt of unit_from_string evaluates the first word of the unit string with pint.Unit", "witness":"ScalarParam(1, unit=\"9**9**9 mV\")", "why_not_fixed":"same mechanism as above"},
 ]
 log = subprocess.run(["git","-C","/repo","log","--format=%h|%s"],capture_output=True,text=True).stdout.strip().splitlines()[::-1]
